@@ -32,13 +32,14 @@ It is a COMPOSITION of the component models, in the order of `main` (src/main.rs
   information (`Docs.coverallsDoc` + `JsonBytes.coverallsJson`), `output_cobertura`
   (`CobAde.cobertura` + `CobBytes.reportBytes`), `output_activedata_etl` (`CobAde.ade` +
   `JsonBytes.adeBytes`), each walking the lines and branches of a record in ascending line order
-  (`BTreeMap`: `Cli.sortCov`) and its functions in the iteration order of the function table
-  (a hash map: the parameter `HashOrder.fns`).
+  (`BTreeMap`s) and its functions in NAME order (`output.rs sorted_functions`, fix 73c9152: byte-wise
+  `String` order of the table names): `Cli.sortCov`. Nothing about the order of the function records
+  is a parameter any more.
 
 Parameters of the model, as in the component models: the file system (`Rewrite.FS`) and the text
 of the source files (`World.text`: `none` = `read_to_string` fails – missing, a directory, not
-UTF-8); `Regex::is_match` (`Opts.isMatch`: regex text ↦ line ↦ Bool); the two hash-map iteration
-orders (`HashOrder`); everything the writers print that is not coverage (`Printed`: floats, the
+UTF-8); `Regex::is_match` (`Opts.isMatch`: regex text ↦ line ↦ Bool); the iteration order of the
+result map (`HashOrder.recs`: the order of the FILE records of an unsorted type); everything the writers print that is not coverage (`Printed`: floats, the
 cobertura timestamp, the coveralls `git` object and source digests – C13's and C03's subjects);
 the order in which the inputs are merged (here: as listed; `Props/C02Run.lean` shows what it can
 change). Not in this model: gcno/gcda and gcov-JSON inputs, profraw inputs, the Java/Kotlin
@@ -111,12 +112,12 @@ def OutType.toMain : OutType → MainGlue.OutputType
   | .ade => .ade
   | .files => .files
 
-/-- the iteration orders of the two `FxHashMap`s: the result map (`rewrite_paths` returns its
-entries in that order) and the function table of a record. Each is a rearrangement of what it is
-given (`HashOrder.OK` in Lemmas/CliRunAll.lean). -/
+/-- the iteration order of the result map, an `FxHashMap` (`rewrite_paths` returns its entries in
+that order): a rearrangement of what it is given (`HashOrder.OK` in Lemmas/CliRunAll.lean). The
+function table of a record is a hash map too, but every writer walks it through
+`sorted_functions` (name order), so its iteration order is not a parameter. -/
 structure HashOrder where
   recs : List Rec → List Rec := id
-  fns : Rec → List (Name × Fn) := fun r => r.cov.functions
 
 /-- what the writers print besides coverage -/
 structure Printed where
@@ -199,10 +200,9 @@ def sortedFor (o : Opts) : Bool := o.sortTypes.contains o.out.toMain
 def ordered (o : Opts) (rs : List Rec) : List Rec :=
   if sortedFor o then MainGlue.sortRecs (o.hash.recs rs) else o.hash.recs rs
 
-/-- a record as a writer walks it: lines and branch lines ascending, functions in table order -/
-def present (o : Opts) (r : Rec) : Rec :=
-  { r with cov := { lines := sortByKey r.cov.lines, branches := sortByKey r.cov.branches
-                    functions := o.hash.fns r } }
+/-- a record as a writer walks it: lines and branch lines ascending (`BTreeMap`s), functions in name
+order (`sorted_functions`) -/
+def present (_o : Opts) (r : Rec) : Rec := { r with cov := sortCov r.cov }
 
 def toRes (r : Rec) : Docs.Res := ⟨r.abs, r.rel, r.cov⟩
 def relCov (r : Rec) : Bytes × Cov := (r.rel, r.cov)
@@ -249,11 +249,12 @@ def run (o : Opts) (w : World) (inputs : List Input) : Res Bytes :=
 /-- the same options without any `--excl-*` option -/
 def Opts.noMarkers (o : Opts) : Opts := { o with excl := ⟨none, none, none, none, none, none⟩ }
 
-/-! ### hash orders given by a reference listing (what the driver uses)
+/-! ### the hash order given by a reference listing (what the driver uses)
 
-The harness reads the order of the file records and of the function records of each file off the
-real report and passes them in; the model then arranges its records accordingly. Entries the
-listing does not mention keep their model order, after the listed ones. -/
+The harness reads the order of the FILE records off the real report and passes it in; the model
+then arranges its records accordingly. Entries the listing does not mention keep their model order,
+after the listed ones. (Before fix 73c9152 the order of the function records of each file had to be
+read off the real report as well; now it is computed: `sortFns`.) -/
 
 /-- position of `k` in `ref`, or `ref.length` -/
 def posIn {α : Type} [DecidableEq α] (ref : List α) (k : α) : Nat := ref.findIdx (· == k)
@@ -267,9 +268,8 @@ def insertByPos {α β : Type} [DecidableEq α] (ref : List α) (key : β → α
 def sortByPos {α β : Type} [DecidableEq α] (ref : List α) (key : β → α) (l : List β) : List β :=
   l.foldr (insertByPos ref key) []
 
-/-- the hash orders determined by a listing of rel paths and, per rel path, of function names -/
-def HashOrder.ofListing (recOrder : List Bytes) (fnOrder : List (Bytes × List Name)) : HashOrder where
+/-- the hash order determined by a listing of rel paths -/
+def HashOrder.ofListing (recOrder : List Bytes) : HashOrder where
   recs := sortByPos recOrder (·.rel)
-  fns := fun r => sortByPos ((get? fnOrder r.rel).getD []) (·.1) r.cov.functions
 
 end Grcov.Cli.RunAll
